@@ -118,6 +118,10 @@ fn base(rng: &mut Rng) -> Table {
         if rng.chance(1, 3) {
             s.insert("warn_files_at".into(), Value::Integer(5));
         }
+        // (drawn from a fork so that the stream of the other choices is what it was)
+        if rng.fork().chance(1, 3) && s.contains_key("max_dirs") {
+            s.insert("warn_dirs_at".into(), Value::Integer(4));
+        }
         match rng.below(4) {
             0 => {
                 s.insert("deny_patterns".into(), strs(&["*.bak"]));
